@@ -305,10 +305,16 @@ def run_symbolic(h, mods, cfg, timeout_ms=20000, max_paths=64, label=""):
     npaths = 0
     nfeas = 0
 
+    ctx = getattr(mods, "_ctx", None)
+
     def body(ex):
         env = Env("sym", mods, ex=ex)
         env.eps_default = True
-        h(env, **cfg)
+        if ctx is not None:
+            with ctx:       # deferred imports inside the code under test resolve to the symbolic copies
+                h(env, **cfg)
+        else:
+            h(env, **cfg)
         return env
 
     for ex, env in explore(body, max_paths=max_paths):
